@@ -222,6 +222,17 @@ def t3_case(case):
                   'eigenvalues %.10g vs %.10g, vector distance %.3g' % (np.real(r1[0]), np.real(r2[0]), phase_dist(x1 / np.linalg.norm(x1), x2 / np.linalg.norm(x2))))
             c.add('post:deflated-pair-is-next[%s]' % dtag, abs(np.real(r1[0]) - w[-1 - nprev]) <= 1e-6 * max(1, abs(w[-1 - nprev])), '%.10g vs %.10g' % (np.real(r1[0]), w[-1 - nprev]))
         c.frame(sps, ps, 'frame:previous-unchanged')
+        if kind == 'real' and ok2:
+            # the same deflation tensors handed over with a complex phase: |p><p| is unchanged, so is the shifted operator
+            phase = np.exp(1j * float(rng.uniform(0.3, 1.2)))
+            psc = [phase * p_ for p_ in ps]
+            ctag = dtag + '/complex-deflation-tensors'
+            ok3, r3 = c.guarded('post:deflation==shifted-operator[%s]' % ctag, lambda: run(g2, 2, previous=psc, shift=shift))
+            if ok3:
+                x3, x2 = vec(r3[1]), vec(r2[1])
+                c.add('post:deflation==shifted-operator[%s]' % ctag,
+                      abs(np.real(r3[0]) - np.real(r2[0])) <= 1e-7 * max(1, abs(r2[0])) and phase_dist(x3 / np.linalg.norm(x3), x2 / np.linalg.norm(x2)) <= 1e-5,
+                      'eigenvalues %.10g vs %.10g, vector distance %.3g' % (np.real(r3[0]), np.real(r2[0]), phase_dist(x3 / np.linalg.norm(x3), x2 / np.linalg.norm(x2))))
 
     # precondition of the block solver: every micro problem has at least number_ev unknowns (all mode sizes >= 2)
     if N >= 4 and solver_eff != 'eigs' and all(x >= 2 for x in rd):
